@@ -7,16 +7,16 @@ Definition parse_text_fuel (m : nat) (s : list Z) : option expr :=
   match lex s with Some ts => parse_fuel m ts | None => None end.
 
 Lemma print_lex_all mw e : wf e -> lexok e ->
-  lex (print_expr mw e) = Some (toks (print_items LLowest e)).
+  lex (print_expr mw e) = Some (toks (print_items mw LLowest e)).
 Proof.
-  intros Hwf Hlx. destruct (print_items_good e Hwf Hlx LLowest) as [G F].
+  intros Hwf Hlx. destruct (print_items_good mw e Hwf Hlx LLowest) as [G F].
   unfold print_expr. apply render_lex_all; [exact F | apply good_chain; exact G].
 Qed.
 
 Theorem print_parse_roundtrip_all mw e : wf e -> lexok e ->
   exists n, forall m, (n <= m)%nat -> parse_text_fuel m (print_expr mw e) = Some (norm e).
 Proof.
-  intros Hwf Hlx. destruct (parse_print_items_all e Hwf) as [n Hn]. exists n. intros m Hm.
+  intros Hwf Hlx. destruct (parse_print_items_all mw e Hwf) as [n Hn]. exists n. intros m Hm.
   unfold parse_text_fuel. rewrite (print_lex_all mw e Hwf Hlx). apply Hn. exact Hm.
 Qed.
 
